@@ -3,7 +3,9 @@ package harness
 import (
 	"encoding/binary"
 	"fmt"
+	"io"
 	"reflect"
+	"sort"
 	"strings"
 	"time"
 
@@ -293,7 +295,75 @@ func pubsubHarness(rc *RunCtx) {
 			return
 		}
 
+		// raw topics: transports used directly with adversarial topic names; each
+		// subscriber must get exactly what was published on ITS topic
+		type rawSub struct {
+			topic string
+			got   []string
+		}
+		var rawSubs []*rawSub
+		var rawWant = map[string][]string{}
+		rawTopicsCheck := func() {}
+		if tp.Intn("rawtopic", 4) == 3 {
+			pool := []string{"audit", "frugal.audit", "frugal", "frugal.frugal", "Audit", "a.b", "frugal.a.b", "x-1.y_2", "frugal.x-1.y_2", "sim." + user + ".Events", "sim." + user + ".Events.ItemCreated.x"}
+			first := tp.Intn("rawtopic", len(pool))
+			n := 2 + tp.Intn("rawtopic", 2)
+			var topics []string
+			for i := 0; i < n; i++ {
+				topics = append(topics, pool[(first+i)%len(pool)])
+			}
+			rc.Fault("raw-topic-isolation")
+			rc.Sample["raw_topics"] = fmt.Sprint(topics)
+			for _, t := range topics[:n-1] { // the last topic has a publisher only
+				rs := &rawSub{topic: t}
+				rawSubs = append(rawSubs, rs)
+				st := subF.GetTransport()
+				if err := st.Subscribe(t, func(tr thrift.TTransport) error {
+					b, _ := io.ReadAll(tr)
+					rs.got = append(rs.got, string(b))
+					return nil
+				}); err != nil {
+					infra = "raw subscribe " + t + ": " + err.Error()
+				}
+			}
+			settle(10 * time.Millisecond)
+			pt := pubF.GetTransport()
+			if err := pt.Open(); err != nil {
+				infra = "raw publisher open: " + err.Error()
+			}
+			for round := 0; round < 2; round++ {
+				for _, t := range topics {
+					body := fmt.Sprintf("raw|%s|%d", t, round)
+					fr := make([]byte, 4, 4+len(body))
+					binary.BigEndian.PutUint32(fr, uint32(len(body)))
+					if err := pt.Publish(t, append(fr, body...)); err != nil {
+						rc.Violate("C07", "publish-failed", key+" raw", fmt.Sprintf("raw publish on %q: %v", t, err))
+					}
+					rawWant[t] = append(rawWant[t], body)
+				}
+			}
+			rawTopicsCheck = func() {
+				for _, rs := range rawSubs {
+					got := append([]string(nil), rs.got...)
+					want := append([]string(nil), rawWant[rs.topic]...)
+					if workers > 1 {
+						sort.Strings(got)
+						sort.Strings(want)
+					}
+					if !reflect.DeepEqual(got, want) {
+						rc.Violate("C07", "topic-isolation", key+" raw", fmt.Sprintf("subscriber of topic %q received %q, published on that topic: %q (topics in play %v)", rs.topic, got, want, topics))
+					}
+				}
+			}
+		}
 		nPre := 1 + tp.Intn("ops", rc.Scale(10, 30))
+		burst := tp.Intn("burst", 10) == 9
+		if burst {
+			// a backlog deeper than any internal queue: the first handler is slow
+			// while the publisher keeps going (order and count must survive overflow paths)
+			nPre = 66 + tp.Intn("burst", rc.Scale(80, 300))
+			rc.Fault("publish-burst-over-slow-handler")
+		}
 		nInflight := tp.Intn("ops", rc.Scale(3, 8))
 		nPost := 1 + tp.Intn("ops", 3)
 		seq := int64(0)
@@ -301,6 +371,12 @@ func pubsubHarness(rc *RunCtx) {
 			seq++
 			it := genItem(tp, seq)
 			it.Ts = simsvc.Stamp(tp.Intn("ops", 8)) // handler duration in ms (<=5 sleeps)
+			if burst && phase == "settled" {
+				it.Ts = 0
+				if seq == 1 || tp.Intn("burst", 40) == 0 {
+					it.Ts = 5
+				}
+			}
 			m := &psMsg{id: seq, phase: phase, item: it, hdr: map[string]string{}, cid: "cid-" + genString(tp, "hdr", 5)}
 			for i, n := 0, tp.Intn("hdr", 4); i < n; i++ {
 				m.hdr["h"+genString(tp, "hdr", 3)] = genString(tp, "hdr", 8)
@@ -351,12 +427,13 @@ func pubsubHarness(rc *RunCtx) {
 			}
 		}
 		for i := 0; i < nPre; i++ {
-			if tp.Intn("ops", 3) == 0 {
+			if !burst && tp.Intn("ops", 3) == 0 {
 				noise()
 			}
 			publish("settled")
 		}
 		settle(2 * time.Second)
+		rawTopicsCheck()
 		for i := 0; i < nInflight; i++ {
 			publish("inflight")
 		}
